@@ -11,11 +11,17 @@ pub struct ExNonNull<T: core::marker::PointeeSized>(std::ptr::NonNull<T>);
 pub struct ExLayout(std::alloc::Layout);
 
 // Layout::from_size_align may fail (not a power of two / too large); no other effect
-pub assume_specification [std::alloc::Layout::from_size_align] (size: usize, align: usize) -> (r: core::result::Result<std::alloc::Layout, std::alloc::LayoutError>);
+pub uninterp spec fn layout_size(l: Layout) -> int;
+pub uninterp spec fn layout_align(l: Layout) -> int;
+pub uninterp spec fn blk_len(p: NonNull<u8>) -> int;     // length of the arena block p points to
+pub uninterp spec fn blk_align(p: NonNull<u8>) -> int;   // guaranteed alignment of that block
+pub assume_specification [std::alloc::Layout::from_size_align] (size: usize, align: usize) -> (r: core::result::Result<std::alloc::Layout, std::alloc::LayoutError>)
+    ensures r matches Ok(l) ==> layout_size(l) == size && layout_align(l) == align;
 
 // bumpalo returns a fresh block of layout.size() bytes aligned to layout.align()
 #[verifier::external_body]
 fn bump_alloc_layout(arena: &Bump, layout: Layout) -> (r: NonNull<u8>)
+    ensures blk_len(r) == layout_size(layout), blk_align(r) == layout_align(layout),
 {
     unimplemented!()
 }
@@ -30,6 +36,7 @@ fn bump_new() -> (r: Bump)
 // header.  The field offsets behind this cast are pinned by Kani unit K1 on the real cast.
 #[verifier::external_body]
 fn arena_page_mut<'x>(ptr: NonNull<u8>) -> (r: &'x mut Page)
+    requires blk_len(ptr) >= 40, blk_align(ptr) % 8 == 0, blk_align(ptr) > 0,     // size_of::<Page>() == 40, align_of::<Page>() == 8 (K1)
 {
     unsafe { &mut *(ptr.as_ptr() as *mut Page) }
 }
